@@ -569,9 +569,10 @@ class DoIPConnection:
         finally:
             logger.debug("Feeding EOF to reader and requesting a close")
             self.reader.feed_eof()
-            await self.close()
             # Nothing will arrive anymore: wake up a consumer which is blocked on the queue.
+            # This must happen before close(), which cancels this very task.
             self._read_queue.put_nowait(None)
+            await self.close()
 
     async def read_frame_unsafe(self) -> DoIPFrame:
         # Avoid waiting on the queue forever when
